@@ -715,6 +715,10 @@ def __and__(self, other):
             len_a = len(a_coord) if isinstance(a_coord, tuple) else 1
             len_b = len(b_coord) if isinstance(b_coord, tuple) else 1
 
+            # An operand that presents no element has no arity to align with
+            if a_coord is None or b_coord is None:
+                len_a = len_b
+
             if len_a == len_b:
                 def succ_next(a, a_coord, a_payload, b, b_coord, b_payload):
                     return *_get_next(a), *_get_next(b)
